@@ -54,7 +54,7 @@ CLAIMED = {
         "failure => the final path is unchanged, the hashed bytes are the file's bytes, a retry sequence keeps the final path intact; every adapter attempt of the campaign (real adapter in process, scripted "
         "storage server incl. cut connections, malformed/overflowing Content-Range, stale .part files) is compared with one model call (outcome class, .part hash, final hash); the Go oracle re-hashes the final "
         "file after every attempt.",
-   note=TB + "Theorems cover the basic adapter; the ssh and custom/standalone adapters are not yet in the model (their verify-then-rename shape was read, DESIGN §5/C02). HTTP stack and TCP cuts are real; their fidelity is the harness's.",
+   note=TB + "The tus adapter is upload-only (n/a). The concurrency theorem is about the model's step granularity (one rename, one write burst); what the OS guarantees about rename(2) and O_EXCL is assumed, the concurrent real runs sample schedules. A TOCTOU change of the agent's file between hashing and rename is outside the model. HTTP stack and TCP cuts are real; their fidelity is the harness's.",
    technique="Lean 4 proof (case analysis over the download state machine with file and hasher state separate) + per-attempt differential correspondence vs the real adapter",
    ref="§5 C02, Appendix J"),
  "C06": dict(
@@ -176,12 +176,12 @@ PENDING_REASON = "check not built yet in this session (build in progress, see DE
 # additions made after the second round of seeded changes (appended to the level text)
 MORE = {
  "C01": " The round trip is also run through configured pointer-extension pairs of three kinds (size-preserving, shrinking, growing).",
- "C02": " No theorem assumes the pre-existing final file to be intact: success_replaces_corrupt_final covers a wrong-content file of any length already sitting at the final path, and the campaign plants such files.",
- "C03": " Remotes are http (fake server that rejects a PUT body not hashing to its oid) or file:// (standalone transfer agent); local objects are damaged (deleted, truncated, extended, bit-flipped) before the push; D37 fixed in /repo.",
+ "C02": " Beyond the basic adapter: models of the custom/standalone adapter and of the pure-SSH adapter (success => final hashes to oid, failure => final unchanged, a padded agent file is refused) tied in process to a scripted transfer agent and a scripted git-lfs-transfer server; a small-step model of ANY number of concurrent downloading processes (private temp files, shared .part and final path: the final path is unchanged or valid in every reachable state) with real concurrent git-lfs processes and a polled final path as its runtime counterpart. No theorem assumes the pre-existing final file to be intact: success_replaces_corrupt_final covers a wrong-content file of any length already sitting at the final path, and the campaign plants such files.",
+ "C03": " The pre-push hook's input parser is modelled (PrePush.lean: every created/updated ref line yields its update wherever it stands; deletions are skipped and take nothing away) and tied to commands.prePushRefs through a hidden verif-only command on generated hook inputs; pushes that delete and update refs at once are generated. Remotes are http (fake server that rejects a PUT body not hashing to its oid) or file:// (standalone transfer agent); local objects are damaged (deleted, truncated, extended, bit-flipped) before the push; D37 fixed in /repo.",
  "C06": " TQErr: every errored object is covered by an error the queue reports (errored_objects_are_reported); the model's `reported` flag is compared with Errors() on every run incl. a directed mixed-batch family.",
  "C09": " Reference-store scenarios (hard link and copy, failed link) are part of the enumeration.",
- "C10": " Location forms: absolute, path-only, network-path (//authority/...) and malformed.",
- "C11": " End to end, the effective values the consumers see (`git lfs env`: fetchinclude, fetchexclude, skipdownloaderrors, url) are compared with the documented precedence for keys set in .lfsconfig (worktree/index/HEAD) and in Git's local/global configuration at once.",
+ "C10": " The credential source `cache` is covered: a model of git-lfs's in-process credentialCacher (every answer carries the key it is asked about, over all op sequences) tied in process to the real cacher, and sessions of several requests on one client with that cache in front of the helper. Location forms: absolute, path-only, network-path (//authority/...) and malformed.",
+ "C11": " The flags with which the two .lfsconfig readers mark their sources are regenerated from git/config.go and proved all-true; the end-to-end locations are worktree / index only / HEAD only / HEAD+index / bare repository. End to end, the effective values the consumers see (`git lfs env`: fetchinclude, fetchexclude, skipdownloaderrors, url) are compared with the documented precedence for keys set in .lfsconfig (worktree/index/HEAD) and in Git's local/global configuration at once.",
  "C13": " Staged new versions of tracked paths (one path, two contents) are part of the scenarios.",
  "C15": " Per-object deferrals with different Retry-After values and a directed several-objects-waiting family: the first request naming a deferred object must not start before its ready time.",
  "C17": " A context machine (ctxRun) covers SEQUENCES of URLs on one credential-helper context: protection follows the current URL's setting (protection_follows_current_url), compared end to end through a fake `git` that records the stdin it is given.",
